@@ -145,7 +145,7 @@ func c04Units(ctx *core.Ctx) []core.Unit {
 			cm := c.Commit(a)
 			pr, err := ipa.CreateIPAProof(common.NewTranscript("ipa"), c, cm, a, frFromBig(z))
 			if err != nil {
-				panic(err)
+				panic(core.ImplFault{API: "ipa.CreateIPAProof", Input: "honest opening of " + p.Name, Got: "error: " + err.Error()})
 			}
 			// L_i and R_i live back to back in one allocation, so every slice has spare capacity that
 			// belongs to the next proof
